@@ -7,6 +7,7 @@ mod while_mod;
 
 use crate::types::scope::get_line_context_name;
 use crate::utils::pckg;
+use crate::utils::state::{get_core_sub_state_for_command, get_list};
 use duckscript::types::command::Commands;
 use duckscript::types::error::ScriptError;
 use duckscript::types::runtime::StateValue;
@@ -20,6 +21,24 @@ fn get_line_key(line: usize, state: &mut HashMap<String, StateValue>) -> String 
     key.push_str(&line.to_string());
 
     key
+}
+
+/// Drops the if/while/for block information which belongs to the provided line context.
+/// A script based command which ends in the middle of a block (for example due to an error)
+/// leaves such information behind and its next invocation would continue the old blocks.
+pub(crate) fn clear_call_stacks_for_context(name: &str, state: &mut HashMap<String, StateValue>) {
+    for command in ["forin", "ifelse", "while"] {
+        let command_state = get_core_sub_state_for_command(state, command.to_string());
+        let call_stack = get_list("call_stack".to_string(), command_state);
+
+        call_stack.retain(|value| match value {
+            StateValue::SubState(call_info) => match call_info.get("line_context_name") {
+                Some(StateValue::String(context_name)) => context_name != name,
+                _ => true,
+            },
+            _ => true,
+        });
+    }
 }
 
 pub(crate) fn load(commands: &mut Commands, parent: &str) -> Result<(), ScriptError> {
